@@ -156,8 +156,26 @@ class Replay:
         self.fired = Counter()
         self.skipped = Counter()
 
-    def run_lens(self, module, cfg=None, workers=16, simulate=None, timeout=3600, limit=None):
+    def run_lens(self, module, cfg=None, workers=16, simulate=None, timeout=900, limit=None, cache=None):
+        """cache: path of a file holding the lens's emitted lines (written on first use) so that
+        several replays of one check run (different environments) share one TLC run."""
         run = tlc.TLCRun(module, cfg=cfg, workers=workers, simulate=simulate, timeout=timeout)
+        if cache is not None and os.path.exists(cache + ".stats"):
+            with open(cache + ".stats") as f:
+                st = json.load(f)
+            run.distinct, run.generated, run.ok, run.error = st["distinct"], st["generated"], st["ok"], st["error"]
+            run.raw_lines = lambda: open(cache)
+        elif cache is not None:
+            inner = run.raw_lines
+
+            def tee():
+                with open(cache, "w") as f:
+                    for line in inner():
+                        f.write(line)
+                        yield line
+                with open(cache + ".stats", "w") as f:
+                    json.dump({"distinct": run.distinct, "generated": run.generated, "ok": run.ok, "error": run.error}, f)
+            run.raw_lines = tee
         seen = set()
         pool = mp.Pool(self.procs, initializer=_init, initargs=(self.mode, self.env))
         pending = []
@@ -178,7 +196,8 @@ class Replay:
                 while len(pending) > 4 * self.procs:
                     self._absorb(pending.pop(0).get())
                 if limit and n_lines >= limit:
-                    for_lines.close()
+                    if hasattr(for_lines, "close"):
+                        for_lines.close()
                     break
             if batch:
                 pending.append(pool.apply_async(_work, (batch,)))
